@@ -375,9 +375,12 @@ def gen_operator_spec(rng, version=None, rv=None, force_n=None, perm=False):
     def rnd(n):
         bits.add(rv.getrandbits(n) if n else 0, n)
 
-    kind = rng.choice(['bitmap', 'bitmap', 'bitmap', 'plain-ops', 'plain-ops', 'bitmap-blocks', 'bitmap-blocks'])
+    kind = rng.choice(['bitmap', 'bitmap', 'bitmap', 'plain-ops', 'plain-ops', 'bitmap-blocks', 'bitmap-blocks',
+                       'seq-ops', 'wide'])
     if kind == 'bitmap-blocks':
         return _gen_bitmap_blocks_spec(rng, version, b, nums, strs, rv, force_n)
+    if kind in ('seq-ops', 'wide'):
+        return _gen_seq_ops_spec(rng, version, b, _d, nums, rv, kind)
     has_factor = False
     if kind == 'plain-ops':
         factor_prefix = b''
@@ -517,6 +520,61 @@ def gen_operator_spec(rng, version=None, rv=None, force_n=None, perm=False):
             'update': 0, 'date': [2021, 2, 3, 4, 5, 6], 'sec2': None, 'pads': {}, 'compressed': False,
             'observed': True, 'raw_ids': ids, 'raw_data': data.hex(), 'nsub': 1, 'opkind': kind,
             'has_factor': has_factor, 'has_bitmap': kind == 'bitmap'}
+
+
+def _gen_seq_ops_spec(rng, version, b, d, nums, rv, kind):
+    """'seq-ops': a Table D sequence used INSIDE the scope of an operator (201 / 202 / 207, or 203 re-defining the
+    reference values of some of its elements) and the same sequence OUTSIDE it, before and/or after - whatever is
+    remembered per sequence must take the operator state into account.
+    'wide': 201YYY with a large YYY: numeric fields wider than 64 bits (some all ones).
+    Data bits are random (any bit pattern of sufficient length decodes to something)."""
+    ids = []
+    if kind == 'wide':
+        for _ in range(rng.randint(1, 2)):
+            y = rng.choice([160, 165, 170, 180, 200, 230, 255])
+            ids += [201000 + y] + [rng.choice(nums) for _ in range(rng.randint(1, 3))] + [201000]
+            if rng.random() < 0.5:
+                ids.append(rng.choice(nums))
+        # all ones in front (missing values of the wide fields), then random
+        data = (b'\xff' * rv.choice([0, 0, 16, 40])) + bytes(rv.randrange(256) for _ in range(64 + 40 * len(ids)))
+    else:
+        seqs = _plain_sequences(version)
+        sid = rng.choice(seqs)
+
+        def elems(x, depth=0):
+            o = []
+            for m in d.get(x, []):
+                if m // 100000 == 3 and depth < 6:
+                    o += elems(m, depth + 1)
+                elif m // 100000 == 0:
+                    o.append(m)
+            return o
+        own = [e for e in elems(sid) if e in b and b[e][1] != bufrgen.STRING_UNIT and 'able' not in b[e][1].lower()
+               and 2 <= b[e][4] <= 32]
+        op = rng.choice([201, 202, 207, 203, 203]) if own else rng.choice([201, 202, 207])
+        if rng.random() < 0.6:
+            ids.append(sid)
+        if op == 203:
+            chosen = rng.sample(own, min(len(own), rng.randint(1, 2)))
+            ids += [203000 + rng.randint(8, 16)] + chosen + [203255, sid]
+            if rng.random() < 0.5:
+                ids.append(rng.choice(chosen))
+            ids.append(203000)
+        else:
+            y = {201: rng.choice([126, 127, 129, 130, 132]), 202: rng.choice([126, 127, 129, 130]), 207: rng.choice([1, 2, 3])}[op]
+            ids += [op * 1000 + y, sid] + ([rng.choice(nums)] if rng.random() < 0.5 else []) + [op * 1000]
+        if rng.random() < 0.7 or sid not in ids[:1]:
+            ids.append(sid)
+        if rng.random() < 0.3:
+            ids.append(rng.choice(nums))
+        n_el = sum(len(elems(x)) if x // 100000 == 3 else 1 for x in ids)
+        data = bytes(rv.randrange(256) for _ in range(64 + 34 * n_el))
+    ed = rng.choice([3, 4, 4])
+    return {'edition': ed, 'version': version, 'local_version': 0, 'centre': rng.choice([0, 7, 98]),
+            'subcentre': 0, 'category': rng.choice([0, 2, 6, 12]), 'subcategory': 0, 'local_subcategory': 0,
+            'update': 0, 'date': [2021, 2, 3, 4, 5, 6], 'sec2': None, 'pads': {}, 'compressed': False,
+            'observed': True, 'raw_ids': ids, 'raw_data': data.hex(), 'nsub': 1, 'opkind': kind,
+            'has_factor': False, 'has_bitmap': False}
 
 
 def _emit_block(rng, b, ids, bits, nums, strs, op, rv):
